@@ -254,12 +254,12 @@ Section Writer.
 
   (* stacking a full pending share *)
   Lemma stack_full j s sts rng done :
-    length s - coff j = ccap j -> coff j <= length s ->
+    ccap j <= length s - coff j ->
     Forall (fun x => x < coff (S j)) sts ->
     cs_stack_pending (mk_cs (cshares j s sts) (cpending j (cres j s sts) (cchunk j s)) ns ver done rng) =
-    Ok (mk_cs (cshares (S j) s sts) (cpending (S j) (cres (S j) s sts) (skipn (coff (S j)) s)) ns ver done rng).
+    Ok (mk_cs (cshares (S j) s sts) (cpending (S j) (cres (S j) s sts) []) ns ver done rng).
   Proof.
-    intros Hfull Hle Hsts. unfold cs_stack_pending. cbn [cs_b cs_ns cs_ver cs_shares cs_done cs_ranges].
+    intros Hfull Hsts. unfold cs_stack_pending. cbn [cs_b cs_ns cs_ver cs_shares cs_done cs_ranges].
     assert (Hlc : length (cchunk j s) = ccap j) by (rewrite length_cchunk; lia).
     rewrite sb_build_ok.
     2:{ unfold cpending. cbn [sb_raw]. rewrite app_length, length_chead_j, Hlc. apply chdr_ccap. }
@@ -268,7 +268,7 @@ Section Writer.
     - rewrite cshares_S. f_equal. f_equal. unfold cpending. cbn [sb_raw].
       rewrite cshare_chead, pad_to_full by exact Hlc. reflexivity.
     - unfold cpending. cbn [Nat.eqb]. rewrite cres_zero by exact Hsts.
-      rewrite skipn_all2 by (rewrite coff_S; lia). rewrite app_nil_r. reflexivity.
+      rewrite app_nil_r. reflexivity.
   Qed.
 
   (* the loop of write: [t] is the stream already in the shares, [d] the data still
@@ -318,13 +318,500 @@ Section Writer.
       { rewrite app_length, Hlf, coff_S. unfold left. lia. }
       rewrite stack_full.
       2:{ subst s. rewrite app_length. lia. }
-      2:{ subst s. rewrite app_length. lia. }
       2:{ eapply Forall_impl; [|exact Hsts]. cbn beta. intros x Hx. rewrite coff_S. lia. }
       cbn [bind].
       destruct (IH (S j) (t ++ firstn left d) (skipn left d) s sts rng Hst) as (j' & E & B).
       { rewrite Hlt. pose proof (ccap_bounds (S j)). lia. }
       { eapply Forall_impl; [|exact Hsts]. cbn beta. intros x Hx. rewrite app_length. lia. }
       { rewrite skipn_length. pose proof (ccap_bounds j). lia. }
-      exists j'. split; [|exact B]. rewrite <- E. do 2 f_equal.
-      rewrite skipn_all2 by lia. rewrite skipn_all2 by (rewrite Hst, app_length; lia). reflexivity.
+      exists j'. split; [|exact B]. rewrite <- E. do 3 f_equal.
+      rewrite skipn_all2 by lia. reflexivity.
   Qed.
+
+  Lemma cshares_stable j s sts u : coff j <= length s ->
+    cshares j (s ++ u) (sts ++ [length s]) = cshares j s sts.
+  Proof.
+    intros H. unfold cshares. apply map_ext_in. intros i Hi. apply in_seq in Hi.
+    apply cshare_stable. pose proof (coff_mono i j). lia.
+  Qed.
+
+  Lemma maybe_write_reserved_pending j s sts u :
+    coff j <= length s < coff j + ccap j -> Forall (fun x => x < length s) sts -> 0 < length u ->
+    sb_maybe_write_reserved (cpending j (cres j s sts) (skipn (coff j) s)) =
+    Ok (cpending j (cres j (s ++ u) (sts ++ [length s])) (skipn (coff j) s)).
+  Proof.
+    intros Hj Hsts Hu. unfold cpending. pose proof (chdr_ccap j) as Hhc. rewrite chdr_eq in Hhc.
+    rewrite maybe_write_reserved_spec.
+    - rewrite cres_pending_step by assumption. rewrite chdr_eq, skipn_length. reflexivity.
+    - apply cres_lt.
+    - rewrite skipn_length. lia.
+  Qed.
+
+  Lemma sb_is_empty_pending j res p : sb_is_empty (cpending j res p) = (length p =? 0).
+  Proof.
+    unfold sb_is_empty, cpending. cbn [sb_raw sb_compact sb_first]. rewrite app_length, length_chead.
+    destruct (j =? 0); cbn [addif]; destruct (length p =? 0) eqn:E; lia.
+  Qed.
+
+  Lemma sb_available_pending j res p : sb_available (cpending j res p) = 512 - (chdr j + length p).
+  Proof.
+    unfold sb_available, cpending, share_size. cbn [sb_raw]. rewrite app_length, length_chead_j. reflexivity.
+  Qed.
+
+  (* the splitter state after the stream [s] (unit starts [sts]) has been written *)
+  Definition cinv (s : bytes) (sts : list nat) (c : csplitter) : Prop :=
+    exists j rng,
+      coff j <= length s < coff j + ccap j /\
+      Forall (fun x => x < length s) sts /\
+      c = mk_cs (cshares j s sts) (cpending j (cres j s sts) (skipn (coff j) s)) ns ver false rng.
+
+  Lemma cinv_init c0 : new_csplitter ns ver = Ok c0 -> cinv [] [] c0.
+  Proof.
+    unfold new_csplitter. rewrite new_builder_compact. cbn [bind]. intros H. injection H as <-.
+    exists 0, []. split; [cbn [coff ccap length]; lia|]. split; [constructor|].
+    unfold cshares, cpending. cbn [seq map Nat.eqb coff]. rewrite skipn_O, app_nil_r. reflexivity.
+  Qed.
+
+  Lemma cs_write_spec s sts c u : cinv s sts c -> 0 < length u ->
+    exists c', cs_write c u = Ok c' /\ cinv (s ++ u) (sts ++ [length s]) c'.
+  Proof.
+    intros (j & rng & Hj & Hsts & ->) Hu. unfold cs_write. cbn [cs_done cs_b cs_shares].
+    rewrite (maybe_write_reserved_pending j s sts u) by assumption. cbn [bind].
+    unfold cs_with at 1. cbn [cs_ns cs_ver cs_ranges].
+    rewrite <- (cshares_stable j s sts u) by lia.
+    set (s' := s ++ u). set (sts' := sts ++ [length s]).
+    assert (Hsts' : Forall (fun x => x < length s') sts').
+    { unfold sts', s'. rewrite app_length. apply Forall_app. split.
+      - eapply Forall_impl; [|exact Hsts]. cbn beta. intros x Hx. lia.
+      - constructor; [lia|constructor]. }
+    destruct (cs_write_loop_spec (S (length u)) j s u s' sts' rng eq_refl Hj) as (j' & E & B); [|lia|].
+    { unfold sts'. apply Forall_app. split.
+      - eapply Forall_impl; [|exact Hsts]. cbn beta. intros x Hx. lia.
+      - constructor; [lia|constructor]. }
+    rewrite E. cbn [bind cs_b]. rewrite sb_available_pending, skipn_length.
+    pose proof (chdr_ccap j') as Hhc.
+    destruct (512 - (chdr j' + (length s' - coff j')) =? 0) eqn:Efull.
+    - rewrite <- (cchunk_partial j' s') by lia. rewrite stack_full.
+      2:{ lia. }
+      2:{ eapply Forall_impl; [|exact Hsts']. cbn beta. intros x Hx. rewrite coff_S. lia. }
+      eexists. split; [reflexivity|]. exists (S j'), rng. split; [rewrite coff_S; pose proof (ccap_bounds (S j')); lia|].
+      split; [exact Hsts'|]. rewrite skipn_all2 by (rewrite coff_S; lia). reflexivity.
+    - eexists. split; [reflexivity|]. exists j', rng. split; [lia|]. split; [exact Hsts'|reflexivity].
+  Qed.
+
+  Lemma cs_write_tx_spec s sts c tx : cinv s sts c ->
+    exists c', cs_write_tx c tx = Ok c' /\ cinv (s ++ marshal_delimited tx) (sts ++ [length s]) c'.
+  Proof.
+    intros Hinv. unfold cs_write_tx.
+    destruct (cs_write_spec s sts c (marshal_delimited tx) Hinv) as (c1 & E & (j & rng & Hj & Hsts & Hc1)).
+    { unfold marshal_delimited. rewrite app_length. pose proof (put_uvarint_length (lenN tx)). lia. }
+    rewrite E. cbn [bind]. eexists. split; [reflexivity|].
+    exists j. eexists. split; [exact Hj|]. split; [exact Hsts|]. rewrite Hc1. reflexivity.
+  Qed.
+
+  Lemma stream_snoc pre t : stream (pre ++ [t]) = stream pre ++ marshal_delimited t.
+  Proof. unfold stream, units. rewrite map_app, concat_app. cbn [map concat]. rewrite app_nil_r. reflexivity. Qed.
+
+  Lemma ustarts_snoc us : forall off u, ustarts off (us ++ [u]) = ustarts off us ++ [off + length (concat us)].
+  Proof.
+    induction us as [|x us IH]; intros off u; cbn [app ustarts concat length].
+    - f_equal. lia.
+    - rewrite IH, app_length. f_equal. f_equal. f_equal. lia.
+  Qed.
+
+  Lemma units_snoc pre t : units (pre ++ [t]) = units pre ++ [marshal_delimited t].
+  Proof. unfold units. rewrite map_app. reflexivity. Qed.
+
+  Lemma write_txs_spec : forall txs pre c, cinv (stream pre) (ustarts 0 (units pre)) c ->
+    exists c', write_txs c txs = Ok c' /\ cinv (stream (pre ++ txs)) (ustarts 0 (units (pre ++ txs))) c'.
+  Proof.
+    induction txs as [|t txs IH]; intros pre c Hinv.
+    - exists c. rewrite app_nil_r. split; [reflexivity|exact Hinv].
+    - cbn [write_txs]. destruct (cs_write_tx_spec _ _ c t Hinv) as (c1 & E & Hinv1).
+      rewrite E. cbn [bind].
+      replace (pre ++ t :: txs) with ((pre ++ [t]) ++ txs) by (rewrite <- app_assoc; reflexivity).
+      apply IH. rewrite stream_snoc, units_snoc, ustarts_snoc. exact Hinv1.
+  Qed.
+
+  (* Count *)
+  Lemma cs_count_spec s sts c : cinv s sts c -> cs_count c = N.of_nat (cneeded (length s)).
+  Proof.
+    intros (j & rng & Hj & Hsts & ->). unfold cs_count. cbn [cs_b cs_done cs_shares].
+    rewrite sb_is_empty_pending, skipn_length. unfold lenN. rewrite length_cshares.
+    rewrite (cneeded_pending j) by exact Hj.
+    destruct (length s - coff j =? 0) eqn:E; destruct (length s =? coff j) eqn:E2; cbn [negb andb]; lia.
+  Qed.
+
+  (* the shares of the closed form carrying sequence length [total] *)
+  Definition cshares_total (total : N) (k : nat) (s : bytes) (sts : list nat) : list share :=
+    map (fun i => cshare ns ver total i s sts) (seq 0 k).
+
+  (* writeSequenceLen patches the first share *)
+  Lemma wsl_spec k s sts n : 0 < k ->
+    cs_write_sequence_len (cshares k s sts) n = Ok (cshares_total (u32 n) k s sts).
+  Proof.
+    intros Hk. destruct k as [|k]; [lia|]. unfold cshares, cshares_total. cbn [seq map].
+    unfold cs_write_sequence_len, wf_shareb, share_size. rewrite length_cshare by exact Hns.
+    cbn [Nat.ltb Nat.leb Nat.eqb negb]. f_equal. f_equal.
+    - unfold cshare. cbn [Nat.eqb]. change (be32 0) with (zeros 4).
+      apply set_at_header_tail; [exact Hns|reflexivity].
+    - apply map_ext_in. intros i Hi. apply in_seq in Hi. destruct i as [|i]; [lia|reflexivity].
+  Qed.
+
+  (* sequenceLen: the uint32 arithmetic gives the stream length *)
+  Lemma cs_sequence_len_empty_pending j L : 0 < j -> L = coff j ->
+    cs_sequence_len (N.of_nat j) 0 = u32 (N.of_nat L).
+  Proof.
+    intros Hj ->. unfold cs_sequence_len. destruct j as [|k]; [lia|]. cbn [coff].
+    replace (N.of_nat (S k) =? 0)%N with false by lia.
+    destruct (N.of_nat (S k) =? 1)%N eqn:E1; unfold u32.
+    - assert (k = 0) by lia. subst k. reflexivity.
+    - f_equal. lia.
+  Qed.
+
+  Lemma cs_sequence_len_pending j L : coff j < L < coff j + ccap j ->
+    cs_sequence_len (N.of_nat (S j)) (N.of_nat (ccap j - (L - coff j))) = u32 (N.of_nat L).
+  Proof.
+    intros H. unfold cs_sequence_len. replace (N.of_nat (S j) =? 0)%N with false by lia.
+    destruct j as [|k]; cbn [coff ccap] in *.
+    - change (N.of_nat 1 =? 1)%N with true. cbv iota. unfold u32.
+      replace (4294967296 + 474 - N.of_nat (474 - (L - 0)))%N with (N.of_nat L + 1 * 4294967296)%N by lia.
+      apply N.mod_add. lia.
+    - replace (N.of_nat (S (S k)) =? 1)%N with false by lia. f_equal. lia.
+  Qed.
+
+  (* Export *)
+  Lemma cs_export_spec s sts c : cinv s sts c ->
+    exists c', cs_export c = Ok (c', cshares_total (u32 (lenN s)) (cneeded (length s)) s sts).
+  Proof.
+    intros (j & rng & Hj & Hsts & ->). unfold cs_export, cs_is_empty.
+    cbn [cs_b cs_done cs_shares]. rewrite sb_is_empty_pending, skipn_length, length_cshares.
+    rewrite (cneeded_pending j) by exact Hj.
+    destruct (length s =? coff j) eqn:E0.
+    - (* nothing pending *)
+      replace (length s - coff j =? 0) with true by lia.
+      destruct (j =? 0) eqn:Ej0; cbn [andb negb].
+      + assert (j = 0) by lia. subst j. eexists. split.
+      + cbn [bind]. rewrite Nat.add_0_r.
+        unfold lenN. rewrite length_cshares.
+        rewrite (cs_sequence_len_empty_pending j (length s)) by lia.
+        rewrite wsl_spec by lia. cbn [bind].
+        unfold u32. rewrite N.mod_mod by lia. eexists. reflexivity.
+    - replace (length s - coff j =? 0) with false by lia. rewrite andb_false_r. cbn [negb].
+      unfold sb_zero_pad, share_size. rewrite sb_build_ok; rewrite ?sb_raw_with.
+      2:{ rewrite app_length, length_zeros. unfold cpending. cbn [sb_raw].
+          rewrite app_length, length_chead_j, skipn_length. pose proof (chdr_ccap j). lia. }
+      cbn [bind].
+      assert (Hlast : sb_raw (cpending j (cres j s sts) (skipn (coff j) s)) ++
+                      zeros (512 - length (sb_raw (cpending j (cres j s sts) (skipn (coff j) s))))
+                      = cshare ns ver 0 j s sts).
+      { rewrite cshare_chead. unfold cpending. cbn [sb_raw]. rewrite <- app_assoc. f_equal.
+        rewrite cchunk_partial by lia. unfold pad_to. f_equal. f_equal.
+        rewrite app_length, length_chead_j. pose proof (chdr_ccap j). lia. }
+      rewrite Hlast, <- cshares_S. replace (j + 1) with (S j) by lia.
+      unfold lenN. rewrite length_cshares.
+      replace (512 - length (sb_raw (cpending j (cres j s sts) (skipn (coff j) s))))
+        with (ccap j - (length s - coff j)).
+      2:{ unfold cpending. cbn [sb_raw]. rewrite app_length, length_chead_j, skipn_length.
+          pose proof (chdr_ccap j). lia. }
+      rewrite cs_sequence_len_pending by lia.
+      rewrite wsl_spec by lia. cbn [bind].
+      unfold u32. rewrite N.mod_mod by lia. eexists. reflexivity.
+  Qed.
+
+  (* ---- C10 (compact half) / C09 (count, length) ---- *)
+  Theorem compact_write_total txs c0 : new_csplitter ns ver = Ok c0 ->
+    exists c, write_txs c0 txs = Ok c.
+  Proof.
+    intros H0. destruct (write_txs_spec txs [] c0 (cinv_init c0 H0)) as (c & E & _). exists c. exact E.
+  Qed.
+
+  Theorem compact_write_spec txs c0 c : new_csplitter ns ver = Ok c0 -> write_txs c0 txs = Ok c ->
+    exists c', cs_export c = Ok (c', compact_spec_ix ns ver txs).
+  Proof.
+    intros H0 Hw. destruct (write_txs_spec txs [] c0 (cinv_init c0 H0)) as (c1 & E & Hinv).
+    rewrite Hw in E. injection E as <-. cbn [app] in Hinv.
+    exact (cs_export_spec _ _ _ Hinv).
+  Qed.
+
+  Theorem compact_count_spec txs c0 c : new_csplitter ns ver = Ok c0 -> write_txs c0 txs = Ok c ->
+    cs_count c = N.of_nat (cneeded (length (stream txs))).
+  Proof.
+    intros H0 Hw. destruct (write_txs_spec txs [] c0 (cinv_init c0 H0)) as (c1 & E & Hinv).
+    rewrite Hw in E. injection E as <-. cbn [app] in Hinv.
+    exact (cs_count_spec _ _ _ Hinv).
+  Qed.
+
+  Lemma new_csplitter_ok : exists c0, new_csplitter ns ver = Ok c0.
+  Proof. unfold new_csplitter. rewrite new_builder_compact. cbn [bind]. eexists. reflexivity. Qed.
+
+  Lemma compact_spec_ix_wf txs : Forall (fun sh => length sh = 512) (compact_spec_ix ns ver txs).
+  Proof.
+    unfold compact_spec_ix. apply Forall_forall. intros sh Hin. apply in_map_iff in Hin.
+    destruct Hin as (i & <- & _). apply length_cshare, Hns.
+  Qed.
+
+  Lemma compact_spec_ix_length txs : length (compact_spec_ix ns ver txs) = cneeded (length (stream txs)).
+  Proof. unfold compact_spec_ix. rewrite map_length, seq_length. reflexivity. Qed.
+End Writer.
+
+(* end to end: construction, writes and export always succeed and give the closed form *)
+Theorem compact_encode_spec ns ver txs : length ns = 29 -> is_compact_ns ns = true -> (ver <= 127)%N ->
+  exists c0 c c', new_csplitter ns ver = Ok c0 /\ write_txs c0 txs = Ok c /\
+    cs_export c = Ok (c', compact_spec_ix ns ver txs) /\
+    cs_count c = N.of_nat (cneeded (length (stream txs))).
+Proof.
+  intros Hns Hc Hver. destruct (new_csplitter_ok ns ver Hc Hver) as (c0 & H0).
+  destruct (compact_write_total ns ver Hns Hc Hver txs c0 H0) as (c & Hw).
+  destruct (compact_write_spec ns ver Hns Hc Hver txs c0 c H0 Hw) as (c' & He).
+  exists c0, c, c'. repeat split; try assumption.
+  exact (compact_count_spec ns ver Hns Hc Hver txs c0 c H0 Hw).
+Qed.
+
+(* ---------- accessors on the specified compact shares ---------- *)
+Lemma cres_cases j s sts : cres j s sts = 0 \/ chdr j <= cres j s sts < 512.
+Proof.
+  pose proof (cres_lt j s sts) as Hlt. unfold cres in *. destruct (find _ sts) as [u|]; [|left; reflexivity].
+  destruct (Nat.ltb u _); [right; lia|left; reflexivity].
+Qed.
+
+Lemma compact_ns_cases ns : is_compact_ns ns = true -> ns = tx_ns \/ ns = pfb_ns.
+Proof.
+  unfold is_compact_ns, is_tx, is_pfb, ns_equals. intros H. apply orb_true_iff in H.
+  destruct H as [H|H]; apply bytes_eqb_eq in H; auto.
+Qed.
+
+Lemma compact_ns_not_padding ns : is_compact_ns ns = true ->
+  is_tail_padding ns = false /\ is_primary_reserved_padding ns = false.
+Proof. intros H. destruct (compact_ns_cases ns H) as [->| ->]; split; vm_compute; reflexivity. Qed.
+
+Lemma parse_reserved_bytes_be32 r : (r < 4294967296)%N ->
+  parse_reserved_bytes (be32 r) = if (512 <=? r)%N then Err else Ok r.
+Proof. intros H. unfold parse_reserved_bytes. rewrite length_be32. cbn [Nat.eqb negb]. rewrite rd32_be32 by exact H. reflexivity. Qed.
+
+Section CompactAccessors.
+  Variables (ns : namespace) (ver total : N) (j : nat) (s : bytes) (sts : list nat).
+  Hypothesis Hns : length ns = 29.
+  Hypothesis Hc : is_compact_ns ns = true.
+  Hypothesis Hver : (ver <= 127)%N.
+
+  Let body : bytes := (if j =? 0 then be32 total else []) ++ be32 (N.of_nat (cres j s sts)) ++ pad_to (ccap j) (cchunk j s).
+
+  Lemma cshare_body : cshare ns ver total j s sts = ns ++ [info_of ver (j =? 0)] ++ body.
+  Proof. reflexivity. Qed.
+
+  Lemma cshare_ns : sh_ns (cshare ns ver total j s sts) = ns.
+  Proof. rewrite cshare_body. apply acc_ns, Hns. Qed.
+
+  Lemma cshare_version : sh_version (cshare ns ver total j s sts) = ver.
+  Proof. rewrite cshare_body. apply acc_version; assumption. Qed.
+
+  Lemma cshare_start : sh_start (cshare ns ver total j s sts) = (j =? 0).
+  Proof. rewrite cshare_body. apply acc_start; assumption. Qed.
+
+  Lemma cshare_is_compact : sh_is_compact (cshare ns ver total j s sts) = true.
+  Proof. rewrite cshare_body. rewrite acc_compact by assumption. exact Hc. Qed.
+
+  Lemma cshare_seq_len : (total < 4294967296)%N ->
+    sh_seq_len (cshare ns ver total j s sts) = if j =? 0 then total else 0%N.
+  Proof.
+    intros Ht. rewrite cshare_body. rewrite acc_seq_len by assumption.
+    unfold body. destruct (j =? 0); [|reflexivity].
+    rewrite firstn_app_exact by apply length_be32. apply rd32_be32, Ht.
+  Qed.
+
+  Lemma cshare_signer : ver <> 1%N -> sh_signer (cshare ns ver total j s sts) = None.
+  Proof.
+    intros Hv1. unfold sh_signer. rewrite cshare_version. replace (ver =? 1)%N with false by lia. reflexivity.
+  Qed.
+
+  (* the payload: everything after the reserved bytes *)
+  Lemma cshare_raw_data : ver <> 1%N ->
+    sh_raw_data (cshare ns ver total j s sts) = pad_to (ccap j) (cchunk j s).
+  Proof.
+    intros Hv1. unfold sh_raw_data, raw_data_start.
+    rewrite cshare_start, cshare_is_compact, cshare_version. replace (ver =? 1)%N with false by lia.
+    rewrite andb_false_r. cbn [addif]. rewrite cshare_body. unfold body.
+    destruct (j =? 0); cbn [addif].
+    - change (30 + 4 + 4 + 0) with (30 + 8). rewrite hdr_skip by exact Hns.
+      rewrite app_assoc. apply skipn_app_exact. reflexivity.
+    - change (30 + 0 + 4 + 0) with (30 + 4). rewrite hdr_skip by exact Hns. cbn [app].
+      apply skipn_app_exact. reflexivity.
+  Qed.
+
+  (* the payload from the first unit that starts in the share *)
+  Lemma cshare_raw_data_using_reserved : ver <> 1%N ->
+    sh_raw_data_using_reserved (cshare ns ver total j s sts) =
+    Ok (if cres j s sts =? 0 then []
+        else skipn (cres j s sts - chdr j) (pad_to (ccap j) (cchunk j s))).
+  Proof.
+    intros Hv1. unfold sh_raw_data_using_reserved.
+    rewrite cshare_start, cshare_is_compact, cshare_version. replace (ver =? 1)%N with false by lia.
+    rewrite andb_false_r. cbn [addif].
+    pose proof (cres_cases j s sts) as Hres.
+    assert (Hf : firstn 4 (skipn (30 + addif (j =? 0) 4 + 0) (cshare ns ver total j s sts))
+                 = be32 (N.of_nat (cres j s sts))).
+    { rewrite cshare_body. unfold body. destruct (j =? 0); cbn [addif].
+      - change (30 + 4 + 0) with (30 + 4). rewrite hdr_skip by exact Hns.
+        rewrite skipn_app_exact by reflexivity. apply firstn_app_exact. reflexivity.
+      - change (30 + 0 + 0) with (30 + 0). rewrite hdr_skip by exact Hns. rewrite skipn_O. cbn [app].
+        apply firstn_app_exact. reflexivity. }
+    rewrite Hf, parse_reserved_bytes_be32 by lia.
+    replace (512 <=? N.of_nat (cres j s sts))%N with false by lia. cbn [bind].
+    destruct (cres j s sts =? 0) eqn:E0.
+    - replace (N.of_nat (cres j s sts) =? 0)%N with true by lia. reflexivity.
+    - replace (N.of_nat (cres j s sts) =? 0)%N with false by lia.
+      unfold lenN, slice_from. rewrite length_cshare by exact Hns.
+      replace (N.of_nat 512 <? N.of_nat (cres j s sts))%N with false by lia.
+      unfold lenN. rewrite length_cshare by exact Hns.
+      replace (N.of_nat (cres j s sts) <=? N.of_nat 512)%N with true by lia.
+      f_equal. unfold dropN. rewrite Nnat.Nat2N.id.
+      replace (cres j s sts) with (chdr j + (cres j s sts - chdr j)) at 1 by lia.
+      rewrite cshare_body. unfold body. rewrite chdr_eq. destruct (j =? 0).
+      + change 38 with (30 + 8) at 1. rewrite <- Nat.add_assoc. rewrite hdr_skip by exact Hns.
+        rewrite app_assoc, skipn_app. rewrite skipn_all2 by (rewrite app_length, !length_be32; lia).
+        rewrite app_length, !length_be32. cbn [app]. f_equal. lia.
+      + change 34 with (30 + 4) at 1. rewrite <- Nat.add_assoc. rewrite hdr_skip by exact Hns.
+        cbn [app]. rewrite skipn_app. rewrite skipn_all2 by (rewrite length_be32; lia).
+        rewrite length_be32. cbn [app]. f_equal. lia.
+  Qed.
+
+  (* a share of a non-empty sequence is not a padding share *)
+  Lemma cshare_is_padding : (total < 4294967296)%N ->
+    sh_is_padding (cshare ns ver total j s sts) = (j =? 0) && (total =? 0)%N.
+  Proof.
+    intros Ht. unfold sh_is_padding. rewrite cshare_start, cshare_seq_len, cshare_ns by exact Ht.
+    destruct (compact_ns_not_padding ns Hc) as [-> ->]. rewrite !orb_false_r.
+    destruct (j =? 0); reflexivity.
+  Qed.
+End CompactAccessors.
+
+(* the first share of an exported sequence carries the stream length, the others do not start one *)
+Lemma compact_spec_ix_seq_len ns ver txs sh rest : length ns = 29 -> (ver <= 127)%N ->
+  compact_spec_ix ns ver txs = sh :: rest ->
+  sh_start sh = true /\ sh_seq_len sh = u32 (lenN (stream txs)) /\
+  Forall (fun x => sh_start x = false /\ sh_seq_len x = 0%N) rest.
+Proof.
+  intros Hns Hver. unfold compact_spec_ix.
+  destruct (cneeded (length (stream txs))) as [|k]; [discriminate|].
+  cbn [seq map]. intros H. injection H as <- <-.
+  assert (Hu : (u32 (lenN (stream txs)) < 4294967296)%N) by (unfold u32; apply N.mod_lt; lia).
+  split; [apply cshare_start; assumption|]. split; [rewrite cshare_seq_len by assumption; reflexivity|].
+  apply Forall_forall. intros x Hx. apply in_map_iff in Hx. destruct Hx as (i & <- & Hi).
+  apply in_seq in Hi. rewrite cshare_start, cshare_seq_len by assumption.
+  destruct i; [lia|]. split; reflexivity.
+Qed.
+
+(* ---------- info byte: all 256 values ---------- *)
+Definition all_bytes : list byte := map (fun n => n2b (N.of_nat n)) (seq 0 256).
+
+Lemma all_bytes_complete b : In b all_bytes.
+Proof.
+  unfold all_bytes. apply in_map_iff. exists (N.to_nat (b2n b)). split.
+  - rewrite Nnat.N2Nat.id. apply n2b_b2n.
+  - apply in_seq. pose proof (b2n_lt b). lia.
+Qed.
+
+Lemma info_byte_laws_all :
+  forallb (fun i => (b2n i =? 2 * info_version i + (if info_start i then 1 else 0))%N
+                    && (info_version i <=? 127)%N
+                    && match new_info_byte (info_version i) (info_start i) with
+                       | Ok i' => byte_eqb i i' | _ => false end) all_bytes = true.
+Proof. vm_compute. reflexivity. Qed.
+
+Theorem info_byte_laws i :
+  info_version i = (b2n i / 2)%N /\ info_start i = N.odd (b2n i) /\
+  b2n i = (2 * info_version i + (if info_start i then 1 else 0))%N /\
+  (info_version i <= 127)%N /\
+  new_info_byte (info_version i) (info_start i) = Ok i.
+Proof.
+  split; [reflexivity|]. split; [reflexivity|].
+  pose proof info_byte_laws_all as H. rewrite forallb_forall in H. specialize (H i (all_bytes_complete i)).
+  apply andb_true_iff in H. destruct H as [H H3]. apply andb_true_iff in H. destruct H as [H1 H2].
+  split; [lia|]. split; [lia|].
+  destruct (new_info_byte (info_version i) (info_start i)) as [i'| |]; try discriminate.
+  apply byte_eqb_eq in H3. subst i'. reflexivity.
+Qed.
+
+(* NewInfoByte accepts exactly the versions up to 127, and the accessors invert it *)
+Theorem new_info_byte_spec v st :
+  new_info_byte v st = (if (v <=? 127)%N then Ok (info_of v st) else Err) /\
+  ((v <= 127)%N -> info_version (info_of v st) = v /\ info_start (info_of v st) = st).
+Proof.
+  split.
+  - unfold new_info_byte, max_share_version, info_of. destruct (127 <? v)%N eqn:E.
+    + replace (v <=? 127)%N with false by lia. reflexivity.
+    + replace (v <=? 127)%N with true by lia. reflexivity.
+  - intros H. split; [apply info_of_version|apply info_of_start]; exact H.
+Qed.
+
+(* ---------- count: CompactSharesNeeded and minimality ---------- *)
+Theorem cneeded_minimal n :
+  n <= coff (cneeded n) /\ (forall k, n <= coff k -> cneeded n <= k) /\
+  (forall k, Z.of_nat (coff k) = available_compact (Z.of_nat k)) /\
+  N.of_nat (cneeded n) = compact_shares_needed (N.of_nat n).
+Proof.
+  split; [apply cneeded_holds|]. split; [intros k; apply cneeded_least|].
+  split; [apply coff_available|apply cneeded_compact].
+Qed.
+
+(* ---------- accessors on the specified sparse and padding shares ---------- *)
+Lemma sparse_first_accessors ns ver len signer payload :
+  length ns = 29 -> is_compact_ns ns = false -> (len < 4294967296)%N ->
+  (ver = 0%N /\ signer = []) \/ (ver = 1%N /\ length signer = 20) ->
+  let sh := ns ++ [info_of ver true] ++ be32 len ++ signer ++ payload in
+  sh_ns sh = ns /\ sh_version sh = ver /\ sh_start sh = true /\ sh_seq_len sh = len /\
+  sh_signer sh = (if (ver =? 1)%N then Some signer else None) /\ sh_raw_data sh = payload.
+Proof.
+  intros Hns Hc Hlen Hv sh. assert (Hver : (ver <= 127)%N) by lia.
+  assert (H1 : sh_ns sh = ns) by (apply acc_ns; exact Hns).
+  assert (H2 : sh_version sh = ver) by (apply acc_version; assumption).
+  assert (H3 : sh_start sh = true) by (apply acc_start; assumption).
+  assert (H4 : sh_is_compact sh = false) by (unfold sh; rewrite acc_compact by exact Hns; exact Hc).
+  split; [exact H1|]. split; [exact H2|]. split; [exact H3|].
+  split.
+  { unfold sh. rewrite acc_seq_len by assumption. rewrite firstn_app_exact by apply length_be32.
+    apply rd32_be32, Hlen. }
+  unfold sh_signer, sh_raw_data, raw_data_start. rewrite H2, H3, H4. cbn [addif andb].
+  destruct Hv as [[-> ->]|[-> Hs]].
+  - change (0 =? 1)%N with false. cbn [addif andb]. split; [reflexivity|].
+    change (30 + 4 + 0 + 0) with (30 + 4). unfold sh. rewrite hdr_skip by exact Hns.
+    cbn [app]. apply skipn_app_exact. reflexivity.
+  - change (1 =? 1)%N with true. cbn [addif andb]. split.
+    + unfold sh. f_equal. change 34 with (30 + 4). rewrite hdr_skip by exact Hns.
+      rewrite skipn_app_exact by reflexivity. apply firstn_app_exact. exact Hs.
+    + change (30 + 4 + 0 + 20) with (30 + 24). unfold sh. rewrite hdr_skip by exact Hns.
+      rewrite app_assoc. apply skipn_app_exact. rewrite app_length, length_be32, Hs. reflexivity.
+Qed.
+
+Lemma sparse_cont_accessors ns ver payload :
+  length ns = 29 -> is_compact_ns ns = false -> (ver <= 127)%N ->
+  let sh := ns ++ [info_of ver false] ++ payload in
+  sh_ns sh = ns /\ sh_version sh = ver /\ sh_start sh = false /\ sh_seq_len sh = 0%N /\
+  sh_signer sh = None /\ sh_raw_data sh = payload.
+Proof.
+  intros Hns Hc Hver sh.
+  assert (H1 : sh_ns sh = ns) by (apply acc_ns; exact Hns).
+  assert (H2 : sh_version sh = ver) by (apply acc_version; assumption).
+  assert (H3 : sh_start sh = false) by (apply acc_start; assumption).
+  assert (H4 : sh_is_compact sh = false) by (unfold sh; rewrite acc_compact by exact Hns; exact Hc).
+  split; [exact H1|]. split; [exact H2|]. split; [exact H3|].
+  split; [unfold sh; rewrite acc_seq_len by assumption; reflexivity|].
+  unfold sh_signer, sh_raw_data, raw_data_start. rewrite H2, H3, H4. rewrite andb_false_r.
+  split; [reflexivity|]. cbn [addif andb]. change (30 + 0 + 0 + 0) with (30 + 0).
+  unfold sh. rewrite hdr_skip by exact Hns. apply skipn_O.
+Qed.
+
+Lemma padding_spec_accessors ns ver : length ns = 29 -> (ver <= 127)%N ->
+  sh_ns (padding_spec ns ver) = ns /\ sh_version (padding_spec ns ver) = ver /\
+  sh_start (padding_spec ns ver) = true /\ sh_seq_len (padding_spec ns ver) = 0%N /\
+  sh_is_padding (padding_spec ns ver) = true.
+Proof.
+  intros Hns Hver. unfold padding_spec.
+  assert (H3 : sh_start (ns ++ [info_of ver true] ++ zeros 482) = true) by (apply acc_start; assumption).
+  assert (H4 : sh_seq_len (ns ++ [info_of ver true] ++ zeros 482) = 0%N)
+    by (rewrite acc_seq_len by assumption; reflexivity).
+  split; [apply acc_ns; exact Hns|]. split; [apply acc_version; assumption|].
+  split; [exact H3|]. split; [exact H4|].
+  unfold sh_is_padding. rewrite H3, H4. reflexivity.
+Qed.
